@@ -396,7 +396,7 @@ theorem source_shape :
 /-! ## examples (non-vacuity, negation witness) -/
 
 /-- a glob oracle for the examples: `*` accepts everything, other parts compare literally -/
-def exGlob : Glob := fun p c => some (p == ['*'] || p == c)
+def exGlob : Glob := fun p c => some (if p = ['*'] then decide ('/' ∉ c) else p == c)
 
 theorem exGlob_G1 : G1 exGlob := fun _ => rfl
 
